@@ -40,6 +40,8 @@ def h_positions(ctx):
         calls = []
         RustUnwrapAnalyzer()._find_unwrap_recursive(root, "x.unwrap()\n", calls)
         ctx.require("call-found", len(calls) == 1)
+        if len(calls) != 1:
+            return
         line, colv = calls[0].line, calls[0].column
     elif site == "clone-call":
         from src.linters.clone_abuse.rust_analyzer import RustCloneAnalyzer
@@ -51,6 +53,8 @@ def h_positions(ctx):
         RustCloneAnalyzer()._find_clone_recursive(root, "x.clone().clone()\n", calls)
         outer = [k for k in calls if k.pattern == "clone-chain"]
         ctx.require("call-found", len(outer) == 1)
+        if len(outer) != 1:
+            return
         line, colv = outer[0].line, outer[0].column
     elif site == "blocking-call":
         ctx.assume(False)     # needs a full scoped_identifier tree; covered with the parser in the loop (K2)
@@ -107,6 +111,14 @@ EXTRA = {
     "nest-multiline-header.py": ("python", "nesting.excessive-depth", 2,
                                  "@decorate\ndef deep(\n    a,\n    b,\n):\n    for i in a:\n        if i:\n            while b:\n                if i > b:\n                    with open('f') as fh:\n                        b = b - i\n    return b\n"),
 }
+# a call at the end of a multi-line method chain: the first line of the chain and the line of the method name are
+# both defensible positions (a tuple of acceptable lines); whichever is reported, a quoted source line must be that line
+EXTRA.update({
+    "unwrap-multiline-chain.rs": ("rust", "unwrap-abuse", (2, 4),
+                                  "fn port(settings: &Settings) -> u16 {\n    let value = settings\n        .get(\"port\")\n        .unwrap();\n    value\n}\n"),
+    "clone-multiline-chain.rs": ("rust", "clone-abuse", (3, 5),
+                                 "fn copy(items: &Vec<String>) {\n    for it in items {\n        let kept = it\n            .clone()\n            .clone();\n        drop(kept);\n    }\n}\n"),
+})
 _P = {}
 _TIER = {"t": "quick"}
 
@@ -155,7 +167,8 @@ def h_offsets(ctx):
             pre = [(cm + " filler comment %d" % i) if (i % 2 == 0 and pre_style == "comment+blank") else "" for i in range(nprep)]
             body = pre + body
             off += nprep
-            expected_line = vline + off
+            expected_lines = tuple(x + off for x in (vline if isinstance(vline, tuple) else (vline,)))
+            expected_line = expected_lines[0]
         content = "\n".join(body) + ("\n" if trailing_nl else "")
         f = d / "src" / n
         f.write_text(content)
@@ -181,8 +194,15 @@ def h_offsets(ctx):
         if 1 <= v.line <= nlines:
             ctx.require("column-within-line", 0 <= v.column <= len(lines[v.line - 1]), rule=v.rule_id, line=v.line, column=v.column,
                         length=len(lines[v.line - 1]))
+    stripped = [l.strip() for l in lines]
+    for v in mine:
+        # a message that ends in a copy of a source line ("...: <code>") must copy the line it reports
+        tail = v.message.rsplit(": ", 1)[-1].strip() if ": " in v.message else ""
+        if len(tail) >= 6 and tail in stripped and 1 <= v.line <= nlines:
+            ctx.require("quoted-source-line-is-the-reported-line", stripped[v.line - 1] == tail, rule=v.rule_id, line=v.line,
+                        quoted=tail, reported_line_text=stripped[v.line - 1])
     own = [v for v in mine if v.rule_id.startswith(prefix)]
-    at = [v for v in own if v.line == expected_line]
+    at = [v for v in own if v.line in expected_lines]
     ctx.cover("found" if at else "not-found")
     ctx.require("reported-at-the-line-of-the-construct", len(at) >= 1, trigger=tname, want_line=expected_line,
                 got=[(v.rule_id, v.line) for v in own], source=lines[expected_line - 1] if expected_line <= len(lines) else None)
